@@ -6,7 +6,7 @@ CONSTANTS
  MaxCrashes = 0
  InlineAt = 0
  Interval = 2
- MBs = {1,80}
+ MBs = {9,80}
  FixRestore = TRUE
  FixPublish = TRUE
  FixMonotone = TRUE
